@@ -65,11 +65,6 @@ Fixpoint dec_trans (l : list val) : option (list (Z * Z)) :=
       match dec_trans r with Some r' => if small o then Some ((t, o) :: r') else None | None => None end
   | _ => None
   end.
-Fixpoint increasing (l : list (Z * Z)) : bool :=
-  match l with
-  | (a, _) :: (((b, _) :: _) as r) => (a <? b) && increasing r
-  | _ => true
-  end.
 Definition dec_zone (v : val) : option szone :=
   match v with
   | VTup [VInt first; VTup trs; rule] =>
@@ -111,20 +106,7 @@ Definition rule_dom (z : szone) (x : Z) : bool :=
   end.
 Definition in_dom (z : szone) (x : Z) : bool := ts_ok x && rule_dom z x.
 
-(** ** the spacing condition: the wall-clock windows of the transitions,
-    [T + min(before, after), T + max(before, after)], are pairwise disjoint and in the order of
-    the transitions (transitions are further apart than the offsets change) *)
-Fixpoint windows (tr : list (Z * Z)) (cur : Z) : list (Z * Z) :=
-  match tr with
-  | [] => []
-  | (t, o) :: rest => (t + Z.min cur o, t + Z.max cur o) :: windows rest o
-  end.
-Fixpoint ordered (ws : list (Z * Z)) : bool :=
-  match ws with
-  | (_, hi) :: (((lo, _) :: _) as rest) => (hi <? lo) && ordered rest
-  | _ => true
-  end.
-Definition spacing_table (tr : list (Z * Z)) (cur : Z) : bool := ordered (windows tr cur).
+(** ** the spacing condition ([windows], [ordered], [spacing_table] are in Spec/Zone.v) *)
 Fixpoint before_last (tr : list (Z * Z)) (cur : Z) : Z :=
   match tr with
   | [] => cur
